@@ -60,16 +60,55 @@ BROWSER_TYPES = [[TX], [TY], [TX, TY], [TY, TX], [TZ], [TZ, TX], [TY, TZ]]
 # stage O
 
 
+D25_SIG = "C04:browser-created-in-handler:completion-reentered"
+
+
+def _expired_only(snap, final, now):
+    """is `snap` (the cache seen inside a callback) the final cache plus records whose TTL had fully elapsed at `now`?  (a browser created
+    from inside a later handler of the same op purges them: D23)"""
+    try:
+        a, b = CC.parse_snapshot(snap), CC.parse_snapshot(final)
+    except ValueError:
+        return False
+    for i, line in b.items():
+        if a.get(i) != line:
+            return False
+    for i, line in a.items():
+        if i not in b:
+            _, _, created, ttl = CC.parse_line(line)
+            if created + 1000 * ttl > now:
+                return False
+    return True
+
+
 def oracle(probes, ops, obs, res):
     found = []
     live = {}      # (bid, type, lower name) -> bool
     active = {}    # bid -> types
+    plans = {}     # (bid, new bid) -> types
     prev_t = None
     for idx, (op, o) in enumerate(zip(ops, obs)):
         k = op[0]
+        made = [e[3] for e in (o.get("events") or []) if e[0] == "b"]
         if o["err"]:
+            if made and o["err"] == "RuntimeError":
+                # D24b: a handler created a browser; the purge of async_add_listener ran nested rounds that re-entered the completion loop
+                twice = sorted({(c[0], c[3]) for c in o["cb"] if c[1] == "A" and sum(1 for d in o["cb"] if d[:4] == c[:4]) > 1})
+                found.append((idx, D25_SIG,
+                              "browser %d's service handler created browser %d while an expired record was cached: async_add_listener purged it and ran "
+                              "async_updates + async_updates_complete(False) over every listener, re-entering browser %d's async_update_records_complete "
+                              "while it iterated _pending_handlers: Added delivered twice for %r and %s out of the op"
+                              % (made[0][0], made[0][1], made[0][0], twice, o.get("errmsg"))))
+                break
             found.append((idx, "C04:exception:%s" % o["err"], "op %r raised %s" % (op[:2], o.get("errmsg"))))
             break
+        if k == "BP":
+            plans[(op[1], op[4])] = list(op[5])
+        for bid, nb in made:
+            # a browser created by a handler plan (cancelling a browser with that id first, as BA does)
+            for key in [x for x in live if x[0] == nb]:
+                del live[key]
+            active[nb] = plans.get((bid, nb), [])
         if k == "BA":
             for key in [x for x in live if x[0] == op[1]]:
                 del live[key]
@@ -99,7 +138,7 @@ def oracle(probes, ops, obs, res):
                 if not live.get(key):
                     found.append((idx, "C04:removed-without-added", "browser %d delivered Removed(%s, %s) for an instance that is not currently added" % (bid, type_, name)))
                 live[key] = False
-            if snap != o["S"]:
+            if snap != o["S"] and not (made and _expired_only(snap, o["S"], (CC.op_time(op) or 0) + (o.get("ticks") or 0))):
                 found.append((idx, "C04:callback-before-cache-update", "the cache seen inside the %s callback for %s differs from the cache after the op" % (ch, name)))
         if o["P"] is not None:
             for bid, types in active.items():
@@ -350,6 +389,106 @@ def oracle_d23b(probes, ops, obs, res):
             for idx, sig, what in oracle_d23(probes, ops, obs, res) if sig == D23_SIG]
 
 
+# D24b (notes/fixes/D24b.diff): a browser created from INSIDE a service handler ("browse, then browse each type found") while an expired
+# record is still cached: async_add_listener purges it and runs nested listener rounds that re-enter the creating browser's completion loop.
+
+
+def d25_histories():
+    """browsers on _x._tcp (ids 0 / 2 / 4: before, at and after the creator in iteration order; all the asyncio flavour); browser 2's
+    listener creates browser 6 from inside add_service / remove_service for a given instance; some record of the first datagram has
+    run out (or not yet: +-1 ms) and is unpurged when the triggering datagram arrives"""
+    P, PB, PY = VOCAB[0], VOCAB[2], VOCAB[3]
+    A, T = VOCAB[10], VOCAB[8]
+    for victim, vttl in ((A, 120), (T, 120), (P, 1125), (PY, 1125), (None, 0)):
+        for off in (-1, 0, 1, 5000):
+            for others in ([], [0], [4], [0, 4]):
+                for new_types in ([TY], [TX], [TX, TY]):
+                    for trigger in ("A", "R"):
+                        t0 = CC.T0
+                        ops = [["BA", 2, t0, [TX]]] + [["BA", b, t0, [TX]] for b in others]
+                        first = [CC.inst(PY, 4500, 0)]
+                        if victim is not None:
+                            first.append(CC.inst(victim, vttl if victim[0] != "p" else 120, 0))
+                        if trigger == "R":
+                            first.append(CC.inst(PB, 4500, 0))
+                        ops.append(["BP", 2, trigger, "B._x._tcp.local.", 6, list(new_types)])
+                        ops.append(["D", t0, first, []])
+                        t1 = t0 + 1000 * max(vttl, 1) + off
+                        if trigger == "A":
+                            recs = [CC.inst(PB, 4500, 0), CC.inst(VOCAB[6], 120, 0)]
+                            if victim is not P:
+                                recs.append(CC.inst(P, 4500, 0))
+                        else:
+                            recs = [CC.inst(PB, 0, 0), CC.inst(VOCAB[11], 120, 0)]
+                        ops.append(["D", t1, recs, []])
+                        ops.append(["D", t1 + 1000, [CC.inst(PY, 4500, 0), CC.inst(P, 4500, 0)], []])
+                        ops.append(["X", (t1 // 10000 + 2) * 10000])
+                        yield ops
+
+
+def d25_valid(ops):
+    return any(o[0] == "BP" for o in ops)
+
+
+def add_plans(rng, ops):
+    """sprinkle handler plans over a random history: after the creation of an even-id browser (the asyncio flavour delivers inline), a plan
+    that creates a browser with a fresh id (4, 5, 6) from inside one of its handlers"""
+    out = []
+    fresh = [4, 5, 6]
+    names = ["a._x._tcp.local.", "B._x._tcp.local.", "c._y._udp.local.", "D._Zed._tcp.local."]
+    for op in ops:
+        out.append(op)
+        if op[0] == "BA" and op[1] % 2 == 0 and fresh and rng.random() < 0.7:
+            for _ in range(rng.choice([1, 1, 2])):
+                if fresh:
+                    nb = fresh.pop(0)
+                    out.append(["BP", op[1], rng.choice(["A", "A", "R", "U"]), rng.choice(names), nb, list(rng.choice(BROWSER_TYPES))])
+    return out
+
+
+# S1 / S6 (findings; notes/agents/C06.md "Residual findings"): a hand-written RecordUpdateListener that registers a listener WITH a question
+# from inside its UPDATE callback (async_add_listener purges and runs nested rounds in the middle of the datagram's first round).  Browsers
+# iterated after it are told Removed twice for a withdrawn record that had run out unpurged (S1); browsers iterated before it have their
+# pending Added fired by the nested completion before the datagram's records are cached (S6).  Outside the model (stage O only).
+S1_SIG = "C04:update-round-reentrant-listener:removed-twice"
+S6_SIG = "C04:update-round-reentrant-listener:added-before-cached"
+
+
+def update_round_histories():
+    P, PB, A = VOCAB[0], VOCAB[2], VOCAB[10]
+    q = ["_other._tcp.local.", 12, 1]
+    for others in ([0], [0, 4]):
+        t0 = CC.T0
+        # S1: listener 1 is iterated before the browsers
+        ops = [["BA", b, t0, [TX]] for b in others] + [["LA", 1], ["D", t0, [CC.inst(P, 120, 0)], []],
+               ["D", t0 + 1125000 + 500, [CC.inst(P, 0, 0)], [[1, 1, 2, 3, 0] + q]], ["X", t0 + 1130000]]
+        yield ops
+        # S6: listener 12 is iterated after the browsers (hash 12 > 7 + id)
+        ops = [["BA", b, t0, [TX]] for b in others] + [["LA", 12], ["D", t0, [CC.inst(A, 120, 0)], []],
+               ["D", t0 + 121000, [CC.inst(PB, 4500, 0)], [[1, 12, 2, 3, 0] + q]], ["X", t0 + 130000]]
+        yield ops
+
+
+def oracle_update_round(probes, ops, obs, res):
+    out = []
+    for idx, sig, what in oracle(probes, ops, obs, res):
+        o = obs[idx] if idx < len(obs) else {}
+        reentrant = any(x[2] == 2 and x[4] == 1 for x in (o.get("executed") or []))
+        if reentrant and sig == "C04:removed-without-added":
+            out.append((idx, S1_SIG, "a listener registered another listener with a question from inside its update callback while the record the datagram "
+                        "withdraws had run out unpurged: the nested purge round and the datagram's own completion round both report it; " + what))
+        elif reentrant and sig in ("C04:added-before-cached", "C04:callback-before-cache-update"):
+            out.append((idx, S6_SIG, "a listener registered another listener with a question from inside its update callback: the nested completion round "
+                        "fired a browser's pending callback before the datagram's records were cached; " + what))
+        else:
+            out.append((idx, sig, what))
+    return out
+
+
+def update_round_valid(ops):
+    return any(o[0] == "D" and any(r[2] == 2 for r in o[3]) for o in ops)
+
+
 def d23b_valid(ops):
     return any(o[0] == "BA" and len(o) > 4 and o[4] for o in ops)
 
@@ -399,6 +538,19 @@ def run(ctx):
         run_.add("d23b-regression", probes, ops)         # and the plain C04 predicates
     run_d23b.finish()
 
+    # D24b: browsers created from inside service handlers (re-entrant async_add_listener)
+    n_d25 = 0
+    for ops in d25_histories():
+        run_.add("d25-browser-created-in-handler", probes, ops)
+        n_d25 += 1
+    res.count("d25-histories", n_d25)
+
+    # S1 / S6: known findings (a custom listener re-entering from the update round), stage O only
+    run_ur = CC.Runner(res, "C04", ctx, oracle_update_round, valid=update_round_valid)
+    for ops in update_round_histories():
+        run_ur.add("update-round-reentrant-listener", probes, ops, model_on=False)
+    run_ur.finish()
+
     # outside the quantifier: model correspondence only (exercises the Added > Removed > Updated precedence, which WFHist makes unreachable)
     probes_w = CC.vocab_probes(VOCAB_WILD, [TX, TY, TZ])
     rng = C.rng_for(seed, "c04", "wild")
@@ -409,6 +561,8 @@ def run(ctx):
     done = 0
     for h in range(n_random):
         ops = gen_history(rng, rng.choice([6, 12, 25, 40, 60]))
+        if h % 3 == 0:
+            ops = add_plans(rng, ops)          # some browsers' handlers create browsers
         run_.add("random", probes, ops)
         done += 1
         if h % 20 == 0 and time.time() > deadline:
